@@ -232,8 +232,6 @@ Definition chk_dispatch (s : Z) : bool :=
 Definition pairs : list (Z * Z) := list_prod all_suites all_versions.
 Definition forall_negotiable (f : Z -> Z -> bool) : bool :=
   forallb (fun p => implb (negotiable (fst p) (snd p)) (f (fst p) (snd p))) pairs.
-Definition forall_negotiable_except (ex : list Z) (f : Z -> Z -> bool) : bool :=
-  forallb (fun p => implb (negotiable (fst p) (snd p) && negb (mem (fst p) ex)) (f (fst p) (snd p))) pairs.
 Definition failing (f : Z -> Z -> bool) : list (Z * Z) :=
   filter (fun p => negotiable (fst p) (snd p) && negb (f (fst p) (snd p))) pairs.
 
